@@ -501,6 +501,97 @@ class Unit:
             i = ce
         return out
 
+    def fatal_byte_assertions(self):
+        """C02: on the error path (`context` is None when `_get_action` is called) `offset` must be the position of the byte the
+        state read last - the first byte at which what was read can no longer be extended.  A ghost copy of `offset` is taken
+        right before each `let other = lex.read::<u8>(offset);` and compared right before each `let action = _get_action(..)`."""
+        t = self.toks
+        edits = []
+        read_pat = ['let', 'other', '=', 'lex', '.', 'read', '::']
+        i = 0; n = 0
+        while True:
+            i = find_seq(t, read_pat, i)
+            if i < 0: break
+            edits.append((i, ['let', 'ghost', 'vlex_read_at', '=', 'offset', ';', '\n'])); i += 1
+        i = 0
+        while True:
+            i = find_seq(t, ['let', 'action', '=', '_get_action', '('], i)
+            if i < 0: break
+            cid = '%s::fatal-byte[%d]' % (self.name, n); n += 1
+            self.inserted.append(cid)
+            edits.append((i, ['proof', '{', '\n', '\x00' + cid + '\x01', 'assert', '(', 'context.is_none() ==> offset == vlex_read_at', ')', ';', '\n', '}', '\n']))
+            i += 1
+        for pos, ins in sorted(edits, key=lambda e: -e[0]):
+            t[pos:pos] = ins
+        if n: self.rewrites.append('ghost: %d `let ghost vlex_read_at = offset;` before the byte read of each state and %d `assert(context.is_none() ==> offset == vlex_read_at)` before `_get_action` (C02 fatal-byte clause)' % (len(edits) - n, n))
+
+    def read_monotone(self):
+        """C20: within one match attempt the offsets passed to `lex.read` never decrease.  A ghost variable `vlex_floor` holds the
+        offset of the last read of the attempt (initially the offset the state / the attempt was entered with):
+          - before the byte read of a state:  assert(vlex_floor <= offset), then vlex_floor = offset;
+          - in the loops of an expanded _fast_loop (whose conditions are reads at `offset`): invariant vlex_floor <= offset and
+            vlex_floor = offset at the start of the body;
+          - before every transition that continues the attempt (tail call / `state = ..; continue`): assert(vlex_floor <= offset);
+          - after a skip (`offset = lex.offset();`) a new attempt starts: vlex_floor = offset.
+        Tail-call output: every state function starts with vlex_floor = its `offset` argument, so the per-function facts chain:
+        the caller passes an offset >= its last read, the callee reads only at offsets >= its argument."""
+        t = self.toks
+        edits = []
+        n_assert = 0
+        def cl(kind):
+            nonlocal n_assert
+            cid = '%s::read-monotone[%s%d]' % (self.name, kind, n_assert); n_assert += 1
+            self.inserted.append(cid)
+            return '\x00' + cid + '\x01'
+        # 1. declaration
+        if self.state_machine:
+            i = find_seq(t, ['match', 'state', '{'])
+            while i > 0 and t[i] != 'loop': i -= 1
+            if i <= 0: raise LexGenError('state-machine loop not found')
+            edits.append((i, ['let', 'ghost', 'mut', 'vlex_floor', ':', 'int', '=', 'offset', 'as', 'int', ';', '\n']))
+        else:
+            lex = [f for f in self.fn_items() if f[0] == 'lex_body'][0]
+            for (name, i_fn, i_par, i_ob, i_cb) in self.fn_items(lex[3] + 1, lex[4]):
+                if name in self.state_fns:
+                    edits.append((i_ob + 1, ['let', 'ghost', 'mut', 'vlex_floor', ':', 'int', '=', 'offset', 'as', 'int', ';', '\n']))
+        # 2. byte reads
+        i = 0
+        while True:
+            i = find_seq(t, ['let', 'other', '=', 'lex', '.', 'read', '::'], i)
+            if i < 0: break
+            edits.append((i, ['proof', '{', '\n', cl('read'), 'assert', '(', 'vlex_floor <= offset', ')', ';', '\n', 'vlex_floor', '=', 'offset', 'as', 'int', ';', '}', '\n']))
+            i += 1
+        # 3. fast-loop bodies
+        i = 0
+        while i < len(t) - 1:
+            if t[i] == 'while' and t[i + 1] == 'let':
+                b = i
+                while t[b] != '{':
+                    if t[b] in OPEN: b = match(t, b)
+                    b += 1
+                edits.append((b + 1, ['proof', '{', 'vlex_floor', '=', 'offset', 'as', 'int', ';', '}', '\n']))
+            i += 1
+        # 4. transitions and the skip restart
+        i = 0
+        while i < len(t) - 3:
+            if self.state_machine:
+                if t[i] == 'state' and t[i + 1] == '=' and t[i + 2] in ('LogosState', 'next_state') and t[i - 1] != 'mut':
+                    # `state = X; continue;` - a restart is preceded by `context = None;` (expanded _take_action)
+                    restart = t[i - 6:i] == ['context', '=', '_Option', '::', 'None', ';']
+                    if not restart:
+                        edits.append((i, ['proof', '{', '\n', cl('goto'), 'assert', '(', 'vlex_floor <= offset', ')', ';', '\n', '}', '\n']))
+            else:
+                if t[i] == 'return' and t[i + 1] in self.state_fns and t[i + 2] == '(':
+                    restart = t[i - 6:i] == ['context', '=', '_Option', '::', 'None', ';']
+                    if not restart:
+                        edits.append((i, ['proof', '{', '\n', cl('goto'), 'assert', '(', 'vlex_floor <= offset', ')', ';', '\n', '}', '\n']))
+            if t[i:i + 7] == ['offset', '=', 'lex', '.', 'offset', '(', ')'] and t[i + 7] == ';' and t[i - 1] != 'mut':
+                edits.append((i + 8, ['proof', '{', 'vlex_floor', '=', 'offset', 'as', 'int', ';', '}', '\n']))
+            i += 1
+        for pos, ins in sorted(edits, key=lambda e: -e[0]):
+            t[pos:pos] = ins
+        self.rewrites.append('ghost: `vlex_floor` (offset of the last read of the attempt) with %d read-monotone assertions (C20)' % n_assert)
+
     # ---- contract insertion ------------------------------------------------------------------------------------------
     def clause(self, cid, text):
         self.inserted.append(cid)
@@ -560,7 +651,8 @@ class Unit:
                'lex.source == old(lex).source && lex.is_prefix == old(lex).is_prefix',
                'old(lex).token_end <= lex.token_start',
                'context.is_some() ==> lex.token_start < lex.token_end',
-               '%s < usize::MAX' % L('lex')]
+               '%s < usize::MAX' % L('lex'),
+               'vlex_floor <= offset']
         arms = {}
         m_ob0 = i_loop + 4; m_cb0 = match(t, m_ob0)
         k = m_ob0 + 1
@@ -607,7 +699,11 @@ class Unit:
             ens = [W('final(lex)'),
                    'final(lex).source == old(lex).source && final(lex).is_prefix == old(lex).is_prefix',
                    'final(lex).token_start == old(lex).token_start',
-                   'final(lex).token_start < final(lex).token_end']
+                   'final(lex).token_start < final(lex).token_end',
+                   # C02: without an accepted match the item ends at max(offset, start + 1), moved forward to the next boundary
+                   'context.is_none() ==> ({ let o = if offset > old(lex).token_start + 1 { offset as int } else { old(lex).token_start + 1 }; '
+                   'o <= final(lex).token_end && final(lex).i_boundary(final(lex).token_end as int) && '
+                   '(forall|j: int| o <= j < final(lex).token_end ==> !final(lex).i_boundary(j)) })']
             ins = self.render_contract(key, req, ens, None)
             self.fns[key] = dict(kind='get_action')
             pe = match(t, i_par)
@@ -619,6 +715,10 @@ class Unit:
             ens = [W('final(lex)'),
                    'final(lex).source == old(lex).source && final(lex).is_prefix == old(lex).is_prefix',
                    'final(lex).token_start == old(lex).token_start && final(lex).token_end == old(lex).token_end']
+            i_cb = match(t, i_ob)
+            if 'lex' not in t[i_ob:i_cb]:
+                # no error callback: the body does not mention the lexer at all
+                ens.append('*final(lex) == *old(lex)')
             ins = self.render_contract(key, req, ens, None)
             self.fns[key] = dict(kind='make_error')
             edits.append((i_ob, 0, ins))
@@ -665,7 +765,7 @@ class Unit:
         t = self.toks; edits = []
         L = LEN.format(x='lex')
         bound = '%s + 1' % L if eoi_target else L
-        base = [WF.format(x='lex'), 'lex.token_start < offset && offset <= %s' % bound, '%s <= usize::MAX' % L, 'vlex_off0 <= offset'] if inv_extra is None else inv_extra
+        base = [WF.format(x='lex'), 'lex.token_start < offset && offset <= %s' % bound, '%s < usize::MAX' % L, 'vlex_off0 <= offset', 'vlex_floor <= offset'] if inv_extra is None else inv_extra
         n = 0
         k = i_ob
         while k < i_cb:
@@ -748,6 +848,8 @@ def transform(name, raw, lex_req, lex_ens, bytes_view=False, canary=None):
         u.contracts_state_machine()
     else:
         u.contracts_tailcall()
+    u.fatal_byte_assertions()
+    u.read_monotone()
     u.entry_proofs()
     # hoisted enums go in front
     pre = []
